@@ -153,7 +153,8 @@ _old_obligations = obligations
 
 
 def obligations(ctx, cfg):
-    return _old_obligations(ctx, cfg) + [C04c()]
+    from props.actor_steps import ActorLoop
+    return _old_obligations(ctx, cfg) + [C04c(), ActorLoop(ctx, 2, 1, 1, False, 'deadline', 'C04.f-actor-loop')]
 
 
 def kani_harnesses(cfg):
